@@ -72,3 +72,8 @@ package util
 //@   props C06
 //@   requires max >= 0
 //@   ensures [C06 truncation] r == ite(len(val) > max, substr(val, 0, max), val)
+
+//@ fn AddYamlExtension(file) (r)
+//@   props C18
+//@   trusted
+//@   pure
